@@ -1,7 +1,9 @@
 ---------------------------- MODULE EncodingTrace ----------------------------
 (* Trace validation (code -> model) for C19.  The harness only executes and records:
      "rt"  a valid tree t, what the real encoder wrote for it (as tokens, re-read with
-           encoding/json / encoding/xml), and what the real decoder made of those bytes;
+           encoding/json / encoding/xml), and what the real decoder made of those bytes; the
+           three encodings of a small batch of trees are all produced before any is read, kept
+           as returned, and `stable` says whether the bytes still equal a copy taken at return;
      "dec" an input of the decoder (a TLC-generated mutant, a class string, seeded random
            bytes; as tokens when it has a token structure) and the outcome
            (tree | error | panic).
@@ -64,6 +66,8 @@ DecodeFault(sn, e) ==
 \* ---- the encoder's output against the prediction
 EncodeFault(sn, e) ==
   IF e.out = "panic" /\ ~e.hastoks /\ e.in = "" THEN <<"panic", "", "">>
+  \* an encoding is a value: the bytes an encoder returned are still the same bytes after later encoder calls
+  ELSE IF ~e.stable THEN <<"changed-after-return", "", "">>
   ELSE IF ~e.outok THEN <<"ill-formed-output", "", "">>
   ELSE IF IsX(e)
   THEN LET p == XParse(e.xtoks) IN
